@@ -12,5 +12,8 @@ MCGraphs == {
   G("cycle3",   <<"a">>, <<"b">>, <<"r", "c">>, E),
   G("selfimp",  <<"r", "a">>, <<"a", "b">>, E, E),
   G("cousins",  <<"a", "b">>, <<"c">>, <<"c", "a">>, <<"r">>),
-  G("wide",     <<"c", "b", "a">>, E, E, E) }
+  G("wide",     <<"c", "b", "a">>, E, E, E),
+  \* twins: files a and b have the SAME file name in different directories and are imported with the same text
+  G("twins",    <<"a", "c">>, E, E, <<"b">>),
+  G("twins2",   <<"c", "a">>, E, <<"a">>, <<"b">>) }
 =============================================================================
